@@ -18,23 +18,27 @@ PAIRS_QUICK = [("small", "small", 3), ("free", "free", 3), ("free", "small", 3),
                ("tree", "tree", 1), ("ctx", "tree", 1)]
 PAIRS_THOROUGH = [("small", "small", 99), ("free", "free", 4), ("free", "small", 4), ("call", "ctx", 2), ("tree", "call", 2),
                   ("tree", "tree", 2), ("ctx", "tree", 2), ("call", "call", 2), ("free", "tree", 2), ("free", "call", 2)]
+# statement granularity inside the storage module (a switch between two statements of push / pop / set ...)
+FINE_QUICK = [("call", "call", 1), ("small", "ctx", 1), ("call", "tree", 1)]
+FINE_THOROUGH = [("call", "call", 2), ("small", "ctx", 2), ("call", "tree", 1), ("tree", "tree", 1), ("free", "call", 1), ("ctx", "ctx", 2)]
 TRIPLES = [("small", "free", "small", 2), ("call", "tree", "ctx", 1), ("free", "free", "free", 2)]
 
 
-def solo(names):
+def solo(names, fine=False):
     from . import sched
     W = sched.make_workloads()
     out = []
     for i, nm in enumerate(names):
         w = W[nm](2 + i)
         sched.run_threads({1: w}, [])           # warm-up: first-use caches must not change the op sequence
-        res, ctl = sched.run_threads({1: w}, [])
+        res, ctl = sched.run_threads({1: w}, [], fine=fine)
         out.append({"obs": res[1], "ops": ctl.ops.get(1, [])})
     return out
 
 
 def replay_chunk(args):
-    names, schedules, solos = args
+    names, schedules, solos = args[:3]
+    fine = len(args) > 3 and args[3]
     from . import sched
     W = sched.make_workloads()
     bad = []
@@ -42,12 +46,12 @@ def replay_chunk(args):
     for w in ws.values():
         sched.run_threads({1: w}, [])           # warm-up
     for s in schedules:
-        res, ctl = sched.run_threads(ws, s)
+        res, ctl = sched.run_threads(ws, s, fine=fine)
         if ctl.stuck:
             # a thread did not reach its next yield point in time (a loaded machine, not the library: there is no
             # lock in it to wait on) - run the schedule again with a generous time-out before judging
             sched.Controller.timeout = 30.0
-            res, ctl = sched.run_threads(ws, s)
+            res, ctl = sched.run_threads(ws, s, fine=fine)
             sched.Controller.timeout = 5.0
         for i in range(len(names)):
             if ctl.stuck:
@@ -63,14 +67,14 @@ def replay_chunk(args):
 OPNAME = {"push_shape_memo": "push", "pop_shape_memo": "pop", "get_shape_memo": "get", "set_shape_memo": "set",
           "_has_shape_memo": "has", "set_treeflatten_memo": "set_flatten", "clear_treeflatten_memo": "clear_flatten",
           "get_treeflatten_memo": "get_flatten", "set_treepath_memo": "set_label", "clear_treepath_memo": "clear_label",
-          "get_treepath_memo": "get_label", "shape_str": "fmt", "print_bindings": "fmt", "other": "other"}
+          "get_treepath_memo": "get_label", "shape_str": "fmt", "print_bindings": "fmt", "other": "other", "line": "other"}
 
 
-def schedules_from_tlc(chk, names, solos, maxpre, shared=False):
+def schedules_from_tlc(chk, names, solos, maxpre, shared=False, tag=""):
     wd = chk.workdir
     ops = [[OPNAME.get(o, "unknown") for o in s["ops"]] for s in solos]
     opsdef = "<<" + ", ".join("<<" + ", ".join(json.dumps(o) for o in t) + ">>" for t in ops) + ">>"
-    mod = f"MC_JtThreads_{os.getpid()}_{abs(hash((tuple(names), maxpre, shared))) % 10**8}"
+    mod = f"MC_JtThreads_{os.getpid()}_{abs(hash((tuple(names), maxpre, shared, tag))) % 10**8}"
     # the recorded access sequences become the constant Ops of a generated root module (in the scratch directory)
     with open(os.path.join(wd, mod + ".tla"), "w") as f:
         f.write(f"---- MODULE {mod} ----\nEXTENDS JtThreads\nOpsDef == {opsdef}\n====\n")
@@ -81,7 +85,7 @@ def schedules_from_tlc(chk, names, solos, maxpre, shared=False):
     if shared:
         chk.add_tlc(f"JtThreads[{'+'.join(names)}, shared] (must be refuted)", res, expect_violation="Isolation")
         return []
-    chk.add_tlc(f"JtThreads[{'+'.join(names)}, preempt<={maxpre}]", res)
+    chk.add_tlc(f"JtThreads[{'+'.join(names)}, preempt<={maxpre}{', ' + tag if tag else ''}]", res)
     scheds = [json.loads(v[1]) for v in res.printed() if isinstance(v, list) and len(v) == 2 and v[0] == "SCHED"]
     if not scheds:
         raise MachineryFailure("no schedules emitted:\n" + res.tail())
@@ -93,21 +97,24 @@ def main(tier):
     try:
         combos = [(c[:-1], c[-1]) for c in (PAIRS_QUICK if tier == "quick" else PAIRS_THOROUGH)]
         combos += [(c[:-1], c[-1]) for c in (TRIPLES[:1] if tier == "quick" else TRIPLES)]
+        nfine = len(FINE_QUICK if tier == "quick" else FINE_THOROUGH)
+        combos += [(c[:-1], c[-1]) for c in (FINE_QUICK if tier == "quick" else FINE_THOROUGH)]
         rng = random.Random(chk.seed)
         total = 0
         cap = 1200 if tier == "quick" else 40000
-        for names, maxpre in combos:
-            solos = solo(names)
+        for ci, (names, maxpre) in enumerate(combos):
+            fine = ci >= len(combos) - nfine
+            solos = solo(names, fine)
             if any(not s["ops"] for s in solos):
                 raise MachineryFailure("no storage access observed in a solo run: the yield points are gone")
-            scheds = schedules_from_tlc(chk, list(names), solos, maxpre)
-            if names == combos[0][0]:
+            scheds = schedules_from_tlc(chk, list(names), solos, maxpre, tag="statement-level" if fine else "")
+            if ci == 0:
                 schedules_from_tlc(chk, list(names), solos, 2, shared=True)
             nall = len(scheds)
             if len(scheds) > cap:
                 scheds = rng.sample(scheds, cap)
             nproc = tlc.NCPU
-            jobs = [(list(names), scheds[i::nproc], solos) for i in range(nproc) if scheds[i::nproc]]
+            jobs = [(list(names), scheds[i::nproc], solos, fine) for i in range(nproc) if scheds[i::nproc]]
             with ProcessPoolExecutor(max_workers=nproc) as ex:
                 outs = list(ex.map(replay_chunk, jobs))
             n = sum(o[1] for o in outs)
@@ -117,9 +124,9 @@ def main(tier):
             for o in outs:
                 for b in o[0][:20]:
                     chk.disagree(f"C06:{'+'.join(names)}:thread{b['thread']}:schedule={''.join(map(str, b['schedule']))[:120]}", b)
-            chk.part("+".join(names), storage_accesses=[len(s["ops"]) for s in solos], schedules_enumerated=nall,
+            chk.part("+".join(names) + ("[statement-level]" if fine else ""), storage_accesses=[len(s["ops"]) for s in solos], schedules_enumerated=nall,
                      schedules_replayed=n, max_preemptions=maxpre)
-            if names == combos[1][0]:
+            if ci == 1:
                 chk.sample({"workloads": names, "ops_thread1": solos[0]["ops"][:12], "schedule": scheds[0][:40]})
         chk.cov["traces_validated_against_impl"] = total
         chk.cov["evaluations"] = total
@@ -127,8 +134,9 @@ def main(tier):
         chk.cov["rule"] = ("schedules = TLC behaviours of JtThreads (all interleavings of the recorded storage-access sequences with "
                            "at most MaxPreempt preemptions; sampled down to a cap when more), each replayed with real threads; "
                            "every schedule is distinct")
-        chk.assumptions += ["yield points are the calls into jaxtyping/_storage.py (sys.settrace); a context switch inside "
-                            "other code is equivalent to one at the next storage access because no other shared state exists",
+        chk.assumptions += ["yield points are the calls into jaxtyping/_storage.py and into the two checking modules (sys.settrace), and "
+                            "in the statement-level runs every line executed inside _storage.py; a context switch elsewhere "
+                            "is equivalent to one at the next yield point because no other shared state exists",
                             "workloads are deterministic; their storage-access sequences are recorded in a solo run"]
     except MachineryFailure as e:
         return chk.abort(str(e))
